@@ -128,14 +128,21 @@ theorem sim_addName {st st' : St} (h : Sim φ ψ st st') (hl : LocsIn S st) (hop
   have hgd : ({ st' with infos := b'.info :: st'.infos } : St).isGlobalDecl (st.flowScope f) b.name =
       ({ st with infos := b.info :: st.infos } : St).isGlobalDecl (st.flowScope f) b.name := by
     simp only [St.isGlobalDecl, h.scopes]
-  rw [hgd]
+  have hnd : ({ st' with infos := b'.info :: st'.infos } : St).isNonlocalDecl (st.flowScope f) b.name =
+      ({ st with infos := b.info :: st.infos } : St).isNonlocalDecl (st.flowScope f) b.name := by
+    simp only [St.isNonlocalDecl, h.scopes]
+  rw [hgd, hnd]
   split
   · refine ⟨⟨h.flows, h.scopes, h.cur, by simp [h.infos], ?_, h.stars, h.attrAssigns, h.imports, h.flowAttrs⟩, hl.names, hl.stars⟩
     simp only [h.globals]
     exact dictSet_map (ψ := ψ) st.globalNames { id := st.infos.length, name := b.name, loc := b.loc, scope := st.flowScope f }
-  · refine ⟨⟨?_, by simp only [h.scopes], h.cur, by simp [h.infos], h.globals, h.stars, h.attrAssigns, h.imports, h.flowAttrs⟩, ?_, hl.stars⟩
-    · exact flows_insert_sim h hl hop f { id := st.infos.length, name := b.name, loc := b.loc, scope := st.flowScope f } hb
-    · exact locsIn_insert hl f _ hb
+  · split
+    · refine ⟨⟨?_, h.scopes, h.cur, by simp [h.infos], h.globals, h.stars, h.attrAssigns, h.imports, h.flowAttrs⟩, ?_, hl.stars⟩
+      · exact flows_insert_sim h hl hop f { id := st.infos.length, name := b.name, loc := b.loc, scope := st.flowScope f } hb
+      · exact locsIn_insert hl f _ hb
+    · refine ⟨⟨?_, by simp only [h.scopes], h.cur, by simp [h.infos], h.globals, h.stars, h.attrAssigns, h.imports, h.flowAttrs⟩, ?_, hl.stars⟩
+      · exact flows_insert_sim h hl hop f { id := st.infos.length, name := b.name, loc := b.loc, scope := st.flowScope f } hb
+      · exact locsIn_insert hl f _ hb
 
 theorem sim_compName {st st' : St} (h : Sim φ ψ st st') (hl : LocsIn S st) (hop : OrderPreserving ψ S)
     (f : Nat) (b b' : Binding) (hn : b'.name = b.name) (hloc : b'.loc = ψ b.loc) (hb : b.loc ∈ S) :
@@ -187,6 +194,11 @@ theorem sim_setFinal {st st' : St} (h : Sim φ ψ st st') (hl : LocsIn S st) :
 theorem sim_globalDecl {st st' : St} (h : Sim φ ψ st st') (hl : LocsIn S st) (ns : List String) :
     Sim φ ψ (st.globalDecl ns) (st'.globalDecl ns) ∧ LocsIn S (st.globalDecl ns) :=
   ⟨⟨h.flows, by simp only [St.globalDecl, h.scopes, h.curScope], h.cur, h.infos, h.globals, h.stars, h.attrAssigns,
+    h.imports, h.flowAttrs⟩, hl.names, hl.stars⟩
+
+theorem sim_nonlocalDecl {st st' : St} (h : Sim φ ψ st st') (hl : LocsIn S st) (ns : List String) :
+    Sim φ ψ (st.nonlocalDecl ns) (st'.nonlocalDecl ns) ∧ LocsIn S (st.nonlocalDecl ns) :=
+  ⟨⟨h.flows, by simp only [St.nonlocalDecl, h.scopes, h.curScope], h.cur, h.infos, h.globals, h.stars, h.attrAssigns,
     h.imports, h.flowAttrs⟩, hl.names, hl.stars⟩
 
 theorem sim_addReturn {st st' : St} (h : Sim φ ψ st st') (hl : LocsIn S st) :
@@ -336,6 +348,10 @@ theorem execInstr_sim (hop : OrderPreserving ψ S) (lines lines' : List Text.Str
   | globalDecl ns =>
     simp only [execInstr, pure_ok_iff] at h; subst h
     obtain ⟨s1, l1⟩ := sim_globalDecl hs hl ns
+    exact ⟨_, rfl, s1, l1⟩
+  | nonlocalDecl ns =>
+    simp only [execInstr, pure_ok_iff] at h; subst h
+    obtain ⟨s1, l1⟩ := sim_nonlocalDecl hs hl ns
     exact ⟨_, rfl, s1, l1⟩
   | addReturn =>
     simp only [execInstr, pure_ok_iff] at h; subst h
